@@ -16,6 +16,8 @@ def check(ctx):
         for_paths(ctx, ctx.repo, name, per_path)
         if name != "vectorized_ltf_plan":
             report_compromise(ctx, ctx.repo, name, found)
+    from ..dispatch import check_window_config
+    check_window_config(ctx, rule="R5-requested-overlap-used")
     check_rounding_helper(ctx, ctx.repo)
     check_jdes_search(ctx, ctx.repo)
     _force_wiring(ctx)
